@@ -6,7 +6,10 @@
 //! IPv4 loopback (setup copied from the repo's `protocol::tests::incoming_filter::direct_pair`:
 //! `presets::Minimal`, `clear_ip_transports`, bound to 127.0.0.1:0, relay disabled, direct addrs).
 //!
-//! payload: `R=<alpn,alpn,..|-> F=<-|xy.xy..> D=<alpn,alpn,..>/<..>/..`
+//! Composition with C42 (hooks + connect preconditions): the accepting endpoint may carry
+//! `EndpointHooks` next to its Router, and every dialing endpoint its own hook list.
+//!
+//! payload: `R=<alpn,alpn,..|-> F=<-|xy.xy..> D=<alpn,alpn,..>/<..>/.. [DH=<hooks|->/<..>/.. AH=<hooks|->]`
 //!   R  registrations in `RouterBuilder::accept` order (hex ALPNs; handler id = position;
 //!      registering an ALPN twice replaces the handler)
 //!   F  `-`: no incoming filter.  Else one verdict pair per dial: x = verdict for an attempt whose
@@ -14,7 +17,17 @@
 //!      i ignore.  The filter looks the pair up BY SOURCE ADDRESS (every dial comes from its own
 //!      freshly bound endpoint) and by `Incoming::remote_addr_validated()`.
 //!   D  dials, in sequence; each offers its first ALPN as primary and the rest as additional.
-//! output per dial, joined by ` ; `:  `<filter calls>|<dial result>|<handler calls>`
+//!      A leading `@` makes the dial target the dialer's OWN id; a primary written `-` is the
+//!      empty protocol name.
+//!   DH one hook list per dial (installed on that dial's endpoint), AH the hooks of the accepting
+//!      endpoint.  hook = `<before><after>`: before ∈ `a`|`r`, after ∈ `a`|`r<code>` (as in C42).
+//! output per dial, joined by ` ; `:
+//!   `<filter calls>|<dial result>|<handler calls>|<dialer hook calls>|<acceptor hook calls>`
+//!   dial result additionally: `rej-before` | `self` | `invalid-alpn` | `rej-after` | `closed:<code>`
+//!   When the dialer's own after-handshake hook rejects, whether the acceptor still completes its
+//!   handshake (runs its hooks, calls `accept`) before it sees the close is a race: the handler
+//!   calls are then printed as `on<h>*` and the acceptor hook calls as `*`; the oracle checks what
+//!   was actually seen (an `accept` in that case got a connection closed with the hook's code).
 //!   filter calls   `<validated 0|1><verdict letter>` concatenated, consecutive repeats collapsed
 //!                  (an ignored client retransmits; each datagram is a new `Incoming`), `-` if none
 //!   dial result    `ok:<alpn>` | `refused` | `noalpn` | `ignored` | `err:<class>`
@@ -29,9 +42,12 @@ use std::net::Ipv4Addr;
 use std::sync::{Arc, Mutex};
 use std::time::Duration;
 
-use iroh::endpoint::{Accepting, ConnectOptions, Connection, Incoming, IncomingAddr, presets};
+use iroh::endpoint::{
+    Accepting, AfterHandshakeOutcome, BeforeConnectOutcome, ConnectOptions, ConnectWithOptsError, Connection,
+    ConnectingError, ConnectionError, EndpointHooks, Incoming, IncomingAddr, VarInt, presets,
+};
 use iroh::protocol::{AcceptError, IncomingFilterOutcome, ProtocolHandler, Router};
-use iroh::{Endpoint, EndpointId};
+use iroh::{Endpoint, EndpointAddr, EndpointId};
 use vcommon::*;
 
 const LONG: Duration = Duration::from_secs(10);
@@ -75,10 +91,23 @@ impl Verdict {
     }
 }
 
+#[derive(Clone, Debug, PartialEq, Eq)]
+struct HookSpec {
+    before_accept: bool,
+    after_reject: Option<u64>,
+}
+
+struct Dial {
+    to_self: bool,
+    offered: Vec<Alpn>,
+    hooks: Vec<HookSpec>,
+}
+
 struct Scenario {
     reg: Vec<Alpn>,
     filter: Option<Vec<[Verdict; 2]>>,
-    dials: Vec<Vec<Alpn>>,
+    dials: Vec<Dial>,
+    ah: Vec<HookSpec>,
 }
 
 fn parse_alpns(s: &str) -> Option<Vec<Alpn>> {
@@ -88,16 +117,80 @@ fn parse_alpns(s: &str) -> Option<Vec<Alpn>> {
     s.split(',').map(|t| unhex(t).filter(|b| !b.is_empty() && b.len() <= 255)).collect()
 }
 
+/// An offer list: like `parse_alpns`, but the primary (first) name may be `-` = empty.
+fn parse_offer(s: &str) -> Option<Vec<Alpn>> {
+    s.split(',')
+        .enumerate()
+        .map(|(i, t)| unhex(t).filter(|b| (i == 0 || !b.is_empty()) && b.len() <= 255))
+        .collect()
+}
+
+fn parse_hooks(s: &str) -> Option<Vec<HookSpec>> {
+    if s == "-" {
+        return Some(Vec::new());
+    }
+    s.split(',')
+        .map(|t| {
+            let (b, a) = t.split_at_checked(1)?;
+            let before_accept = match b {
+                "a" => true,
+                "r" => false,
+                _ => return None,
+            };
+            let after_reject = if a == "a" {
+                None
+            } else {
+                let code: u64 = a.strip_prefix('r')?.parse().ok()?;
+                if code >= 1 << 62 {
+                    return None;
+                }
+                Some(code)
+            };
+            Some(HookSpec { before_accept, after_reject })
+        })
+        .collect()
+}
+
 fn parse(payload: &str) -> Option<Scenario> {
     let mut it = payload.split(' ');
     let reg = parse_alpns(it.next()?.strip_prefix("R=")?)?;
     let f = it.next()?.strip_prefix("F=")?;
     let d = it.next()?.strip_prefix("D=")?;
+    let (dh, ah) = match it.next() {
+        None => (None, Vec::new()),
+        Some(t) => {
+            let dh: Vec<Vec<HookSpec>> = t.strip_prefix("DH=")?.split('/').map(parse_hooks).collect::<Option<_>>()?;
+            let ah = parse_hooks(it.next()?.strip_prefix("AH=")?)?;
+            (Some(dh), ah)
+        }
+    };
     if it.next().is_some() {
         return None;
     }
-    let dials: Vec<Vec<Alpn>> = d.split('/').map(parse_alpns).collect::<Option<_>>()?;
-    if dials.is_empty() || dials.len() > 4 || dials.iter().any(|o| o.is_empty() || o.len() > 4) || reg.len() > 6 {
+    let mut dials = Vec::new();
+    for (i, t) in d.split('/').enumerate() {
+        let (to_self, t) = match t.strip_prefix('@') {
+            Some(r) => (true, r),
+            None => (false, t),
+        };
+        let offered = parse_offer(t)?;
+        let hooks = match &dh {
+            None => Vec::new(),
+            Some(dh) => dh.get(i)?.clone(),
+        };
+        dials.push(Dial { to_self, offered, hooks });
+    }
+    if let Some(dh) = &dh {
+        if dh.len() != dials.len() {
+            return None;
+        }
+    }
+    if dials.is_empty()
+        || dials.len() > 4
+        || dials.iter().any(|d| d.offered.is_empty() || d.offered.len() > 4 || d.hooks.len() > 4)
+        || reg.len() > 6
+        || ah.len() > 4
+    {
         return None;
     }
     let filter = if f == "-" {
@@ -118,7 +211,7 @@ fn parse(payload: &str) -> Option<Scenario> {
         }
         Some(pairs)
     };
-    Some(Scenario { reg, filter, dials })
+    Some(Scenario { reg, filter, dials, ah })
 }
 
 #[derive(Debug, Default)]
@@ -127,6 +220,14 @@ struct Logs {
     filter: Vec<(Option<usize>, bool, Verdict)>,
     /// (dial index, handler id, Some(alpn) for accept / None for on_accepting)
     handler: Vec<(Option<usize>, usize, Option<Alpn>)>,
+    /// what a handler's `accept` saw when its connection ended: (dial, application close code+reason)
+    handler_close: Vec<(Option<usize>, Option<(u64, Vec<u8>)>)>,
+    /// acceptor-side hook calls: (dial index, "a<i>" / "b<i>")
+    ahooks: Vec<(Option<usize>, String)>,
+    /// dialer-side hook calls per dial
+    dhooks: Vec<(usize, String)>,
+    /// hook argument checks that failed
+    arg_faults: Vec<String>,
 }
 
 #[derive(Debug, Default)]
@@ -149,6 +250,13 @@ fn dial_of_addr(dir: &Dir, a: &IncomingAddr) -> Option<usize> {
     }
 }
 
+fn app_close(e: &ConnectionError) -> Option<(u64, Vec<u8>)> {
+    match e {
+        ConnectionError::ApplicationClosed(c) => Some((c.error_code.into_inner(), c.reason.to_vec())),
+        _ => None,
+    }
+}
+
 impl ProtocolHandler for Logging {
     async fn on_accepting(&self, accepting: Accepting) -> Result<Connection, AcceptError> {
         let d = dial_of_addr(&self.dir, &accepting.remote_addr());
@@ -160,8 +268,66 @@ impl ProtocolHandler for Logging {
         let d = self.dir.by_id.get(&connection.remote_id()).copied();
         self.logs.lock().unwrap().handler.push((d, self.id, Some(connection.alpn().to_vec())));
         // keep the connection until the dialer is done with it (bounded)
-        let _ = tokio::time::timeout(Duration::from_secs(5), connection.closed()).await;
+        let end = tokio::time::timeout(Duration::from_secs(5), connection.closed()).await;
+        let seen = end.ok().and_then(|e| app_close(&e));
+        self.logs.lock().unwrap().handler_close.push((d, seen));
         Ok(())
+    }
+}
+
+/// A scripted `EndpointHooks` value; `dial` is `Some(i)` on dial i's endpoint, `None` on the acceptor.
+#[derive(Debug)]
+struct ScriptHook {
+    idx: usize,
+    dial: Option<usize>,
+    spec: HookSpec,
+    logs: Arc<Mutex<Logs>>,
+    dir: Arc<Mutex<Arc<Dir>>>,
+    /// dialer side: what the hook must be shown
+    expect: Option<(Alpn, Arc<Mutex<Option<EndpointId>>>)>,
+}
+
+fn reason(side: char, idx: usize) -> Vec<u8> {
+    format!("hook{idx}{side}").into_bytes()
+}
+
+impl EndpointHooks for ScriptHook {
+    async fn before_connect<'a>(&'a self, remote_addr: &'a EndpointAddr, alpn: &'a [u8]) -> BeforeConnectOutcome {
+        let mut l = self.logs.lock().unwrap();
+        match self.dial {
+            Some(d) => l.dhooks.push((d, format!("b{}", self.idx))),
+            None => l.ahooks.push((None, format!("b{}", self.idx))),
+        }
+        if let Some((a, id)) = &self.expect {
+            if alpn != a.as_slice() {
+                l.arg_faults.push(format!("before_connect {} saw alpn {}", self.idx, hex(alpn)));
+            }
+            if let Some(id) = *id.lock().unwrap() {
+                if remote_addr.id != id {
+                    l.arg_faults.push(format!("before_connect {} saw a different remote id", self.idx));
+                }
+            }
+        }
+        if self.spec.before_accept { BeforeConnectOutcome::Accept } else { BeforeConnectOutcome::Reject }
+    }
+
+    async fn after_handshake<'a>(&'a self, conn: &'a Connection) -> AfterHandshakeOutcome {
+        let mut l = self.logs.lock().unwrap();
+        match self.dial {
+            Some(d) => l.dhooks.push((d, format!("a{}", self.idx))),
+            None => {
+                let dir = self.dir.lock().unwrap().clone();
+                let d = dir.by_id.get(&conn.remote_id()).copied();
+                l.ahooks.push((d, format!("a{}", self.idx)));
+            }
+        }
+        match self.spec.after_reject {
+            None => AfterHandshakeOutcome::Accept,
+            Some(code) => AfterHandshakeOutcome::Reject {
+                error_code: VarInt::from_u64(code).unwrap(),
+                reason: reason(if self.dial.is_some() { 'd' } else { 'a' }, self.idx),
+            },
+        }
     }
 }
 
@@ -178,6 +344,11 @@ enum DialRes {
     Refused,
     NoAlpn,
     TimedOut,
+    RejBefore,
+    SelfConnect,
+    InvalidAlpn,
+    RejAfter,
+    Closed(u64, Vec<u8>),
     Err(String),
 }
 
@@ -185,13 +356,19 @@ struct DialObs {
     filter: Vec<(bool, Verdict)>,
     res: DialRes,
     handler: Vec<(usize, Option<Alpn>)>,
+    handler_close: Vec<Option<(u64, Vec<u8>)>>,
+    dhooks: Vec<String>,
+    ahooks: Vec<String>,
 }
 
-async fn bind_lo() -> Result<Endpoint, Fault> {
-    let b = Endpoint::builder(presets::Minimal)
+async fn bind_lo(hooks: Vec<ScriptHook>) -> Result<Endpoint, Fault> {
+    let mut b = Endpoint::builder(presets::Minimal)
         .clear_ip_transports()
         .bind_addr((Ipv4Addr::LOCALHOST, 0))
         .map_err(|e| Fault::Infra(format!("bind_addr: {e}")))?;
+    for h in hooks {
+        b = b.hooks(h);
+    }
     tokio::time::timeout(LONG, b.bind())
         .await
         .map_err(|_| Fault::Infra("bind timed out".into()))?
@@ -216,11 +393,34 @@ fn classify(err: &str) -> DialRes {
 }
 
 async fn scenario(sc: &Scenario) -> Result<Vec<DialObs>, Fault> {
-    let server = bind_lo().await?;
+    let logs: Arc<Mutex<Logs>> = Arc::default();
+    let dir_cell: Arc<Mutex<Arc<Dir>>> = Arc::default();
+    let server_hooks: Vec<ScriptHook> = sc
+        .ah
+        .iter()
+        .enumerate()
+        .map(|(idx, spec)| ScriptHook { idx, dial: None, spec: spec.clone(), logs: logs.clone(), dir: dir_cell.clone(), expect: None })
+        .collect();
+    let server = bind_lo(server_hooks).await?;
     let mut dialers = Vec::new();
     let mut dir = Dir::default();
-    for i in 0..sc.dials.len() {
-        let ep = bind_lo().await?;
+    let mut targets: Vec<Arc<Mutex<Option<EndpointId>>>> = Vec::new();
+    for (i, dial) in sc.dials.iter().enumerate() {
+        let target: Arc<Mutex<Option<EndpointId>>> = Arc::default();
+        let hooks: Vec<ScriptHook> = dial
+            .hooks
+            .iter()
+            .enumerate()
+            .map(|(idx, spec)| ScriptHook {
+                idx,
+                dial: Some(i),
+                spec: spec.clone(),
+                logs: logs.clone(),
+                dir: dir_cell.clone(),
+                expect: Some((dial.offered[0].clone(), target.clone())),
+            })
+            .collect();
+        let ep = bind_lo(hooks).await?;
         let port = ep
             .bound_sockets()
             .iter()
@@ -229,10 +429,12 @@ async fn scenario(sc: &Scenario) -> Result<Vec<DialObs>, Fault> {
             .ok_or_else(|| Fault::Infra("dialer has no ipv4 socket".into()))?;
         dir.by_port.insert(port, i);
         dir.by_id.insert(ep.id(), i);
+        *target.lock().unwrap() = Some(if dial.to_self { ep.id() } else { server.id() });
+        targets.push(target);
         dialers.push(ep);
     }
     let dir = Arc::new(dir);
-    let logs: Arc<Mutex<Logs>> = Arc::default();
+    *dir_cell.lock().unwrap() = dir.clone();
 
     let mut b = Router::builder(server.clone());
     for (h, alpn) in sc.reg.iter().enumerate() {
@@ -258,42 +460,88 @@ async fn scenario(sc: &Scenario) -> Result<Vec<DialObs>, Fault> {
 
     let mut results: Vec<DialRes> = Vec::new();
     let mut fault = None;
-    for (i, offered) in sc.dials.iter().enumerate() {
+    for (i, dial) in sc.dials.iter().enumerate() {
+        let offered = &dial.offered;
         let can_ignore = sc.filter.as_ref().map(|p| p[i].contains(&Verdict::Ignore)).unwrap_or(false);
         let deadline = if can_ignore { SHORT } else { LONG };
         let opts = ConnectOptions::new().with_additional_alpns(offered[1..].to_vec());
         let ep = dialers[i].clone();
-        let addr = addr.clone();
+        let addr = if dial.to_self { ep.addr() } else { addr.clone() };
         let primary = offered[0].clone();
         let attempt = async move {
-            let connecting = ep.connect_with_opts(addr, &primary, opts).await.map_err(|e| format!("{e:#}"))?;
-            let conn = connecting.await.map_err(|e| format!("{e:#}"))?;
-            Ok::<Connection, String>(conn)
+            let connecting = match ep.connect_with_opts(addr, &primary, opts).await {
+                Ok(c) => c,
+                Err(e) => {
+                    return Err(match &e {
+                        ConnectWithOptsError::LocallyRejected { .. } => DialRes::RejBefore,
+                        ConnectWithOptsError::SelfConnect { .. } => DialRes::SelfConnect,
+                        ConnectWithOptsError::InvalidAlpn { .. } => DialRes::InvalidAlpn,
+                        other => classify(&format!("{other:#}")),
+                    });
+                }
+            };
+            match connecting.await {
+                Ok(conn) => Ok(conn),
+                Err(e) => Err(match &e {
+                    ConnectingError::LocallyRejected { .. } => DialRes::RejAfter,
+                    other => classify(&format!("{other:#}")),
+                }),
+            }
         };
         let res = match tokio::time::timeout(deadline, attempt).await {
             Err(_) => DialRes::TimedOut,
-            Ok(Err(e)) => classify(&e),
+            Ok(Err(r)) => r,
             Ok(Ok(conn)) => {
                 let alpn = conn.alpn().to_vec();
-                // the acceptor finishes its handshake after the dialer: wait (bounded) for the
-                // handler to be entered before closing
-                let t0 = tokio::time::Instant::now();
-                loop {
-                    let seen =
-                        logs.lock().unwrap().handler.iter().any(|(d, _, a)| *d == Some(i) && a.is_some());
-                    if seen || t0.elapsed() > Duration::from_secs(5) {
-                        break;
+                // the acceptor finishes its handshake after the dialer: wait (bounded) until either
+                // a handler's `accept` is entered or the acceptor closes the connection
+                let entered = async {
+                    loop {
+                        let seen =
+                            logs.lock().unwrap().handler.iter().any(|(d, _, a)| *d == Some(i) && a.is_some());
+                        if seen {
+                            break;
+                        }
+                        tokio::time::sleep(Duration::from_millis(1)).await;
                     }
-                    tokio::time::sleep(Duration::from_millis(1)).await;
+                };
+                let r = tokio::select! {
+                    biased;
+                    e = conn.closed() => match app_close(&e) {
+                        Some((c, r)) => DialRes::Closed(c, r),
+                        None => DialRes::Err(format!("{e:?}").split_whitespace().take(6).collect::<Vec<_>>().join("_")),
+                    },
+                    _ = entered => DialRes::Ok(alpn.clone()),
+                    _ = tokio::time::sleep(Duration::from_secs(5)) => DialRes::Ok(alpn.clone()),
+                };
+                if matches!(r, DialRes::Ok(_)) {
+                    tokio::time::sleep(Duration::from_millis(15)).await;
+                    // the acceptor may have closed in the meantime (it did not: `accept` was entered)
+                    conn.close(0u32.into(), b"done");
                 }
-                tokio::time::sleep(Duration::from_millis(15)).await;
-                conn.close(0u32.into(), b"done");
-                DialRes::Ok(alpn)
+                r
             }
         };
-        if !matches!(res, DialRes::Ok(_)) {
-            // grace: a handler invoked for a failed dial would show up here
-            tokio::time::sleep(Duration::from_millis(40)).await;
+        match &res {
+            DialRes::Ok(_) => {}
+            DialRes::RejAfter => {
+                // the acceptor is racing with our close: give it time to settle (bounded), i.e.
+                // until a handler that entered `accept` has seen the connection end
+                let t0 = tokio::time::Instant::now();
+                loop {
+                    tokio::time::sleep(Duration::from_millis(5)).await;
+                    let l = logs.lock().unwrap();
+                    let entered = l.handler.iter().filter(|(d, _, a)| *d == Some(i) && a.is_some()).count();
+                    let ended = l.handler_close.iter().filter(|(d, _)| *d == Some(i)).count();
+                    if (t0.elapsed() > Duration::from_millis(60) && entered == ended) || t0.elapsed() > Duration::from_secs(6) {
+                        break;
+                    }
+                }
+            }
+            _ => {
+                // grace: a handler invoked for a failed dial would show up here
+                tokio::time::sleep(Duration::from_millis(40)).await;
+            }
         }
         if res == DialRes::TimedOut {
             let ignored = logs.lock().unwrap().filter.iter().any(|(d, _, v)| *d == Some(i) && *v == Verdict::Ignore);
@@ -327,14 +575,26 @@ async fn scenario(sc: &Scenario) -> Result<Vec<DialObs>, Fault> {
         }
         let handler: Vec<(usize, Option<Alpn>)> =
             logs.handler.iter().filter(|(d, _, _)| *d == Some(i)).map(|(_, h, a)| (*h, a.clone())).collect();
-        out.push(DialObs { filter, res, handler });
+        let handler_close = logs.handler_close.iter().filter(|(d, _)| *d == Some(i)).map(|(_, c)| c.clone()).collect();
+        let dhooks = logs.dhooks.iter().filter(|(d, _)| *d == i).map(|(_, c)| c.clone()).collect();
+        let ahooks = logs.ahooks.iter().filter(|(d, _)| *d == Some(i)).map(|(_, c)| c.clone()).collect();
+        out.push(DialObs { filter, res, handler, handler_close, dhooks, ahooks });
     }
     if let Some(o) = out.iter().find(|o| matches!(o.res, DialRes::Err(_))) {
         return Err(Fault::Odd(format!("dial-err:{:?}", o.res).replace(' ', "_")));
     }
-    // anything attributed to no dial is a plumbing problem
-    if logs.filter.iter().any(|(d, _, _)| d.is_none()) || logs.handler.iter().any(|(d, _, _)| d.is_none()) {
-        return Err(Fault::Infra("log entry from an unknown source address".into()));
+    // anything attributed to no dial is a plumbing problem (or a before_connect call on the acceptor)
+    if logs.ahooks.iter().any(|(d, c)| d.is_none() && c.starts_with('b')) {
+        return Err(Fault::Odd("before_connect-called-on-the-accepting-endpoint".into()));
+    }
+    if logs.filter.iter().any(|(d, _, _)| d.is_none())
+        || logs.handler.iter().any(|(d, _, _)| d.is_none())
+        || logs.ahooks.iter().any(|(d, _)| d.is_none())
+    {
+        return Err(Fault::Infra("log entry from an unknown source".into()));
+    }
+    if !logs.arg_faults.is_empty() {
+        return Err(Fault::Odd(format!("hook-arguments:{}", logs.arg_faults[0].replace(' ', "_"))));
     }
     Ok(out)
 }
@@ -352,21 +612,36 @@ fn render(obs: &[DialObs]) -> String {
                 DialRes::Refused => "refused".into(),
                 DialRes::NoAlpn => "noalpn".into(),
                 DialRes::TimedOut => "ignored".into(),
+                DialRes::RejBefore => "rej-before".into(),
+                DialRes::SelfConnect => "self".into(),
+                DialRes::InvalidAlpn => "invalid-alpn".into(),
+                DialRes::RejAfter => "rej-after".into(),
+                DialRes::Closed(c, _) => format!("closed:{c}"),
                 DialRes::Err(e) => format!("err:{e}"),
             };
+            let race = o.res == DialRes::RejAfter;
             let h: String = if o.handler.is_empty() {
                 "-".into()
             } else {
-                o.handler
+                let mut v: Vec<String> = o
+                    .handler
                     .iter()
+                    .filter(|(_, a)| !(race && a.is_some()))
                     .map(|(h, a)| match a {
                         None => format!("on{h}"),
                         Some(a) => format!("ac{h}:{}", hex(a)),
                     })
-                    .collect::<Vec<_>>()
-                    .join(",")
+                    .collect();
+                if race {
+                    if let Some(l) = v.last_mut() {
+                        l.push('*');
+                    }
+                }
+                v.join(",")
             };
-            format!("{f}|{r}|{h}")
+            let j = |v: &Vec<String>| if v.is_empty() { "-".to_string() } else { v.join(".") };
+            let ah = if race { "*".to_string() } else { j(&o.ahooks) };
+            format!("{f}|{r}|{h}|{}|{ah}", j(&o.dhooks))
         })
         .collect::<Vec<_>>()
         .join(" ; ")
@@ -375,7 +650,8 @@ fn render(obs: &[DialObs]) -> String {
 /// The property, evaluated on what was observed (no model involved).
 fn oracle(sc: &Scenario, obs: &[DialObs], ex: &mut Exec) {
     for (i, o) in obs.iter().enumerate() {
-        let offered = &sc.dials[i];
+        let dial = &sc.dials[i];
+        let offered = &dial.offered;
         let accepts: Vec<&(usize, Option<Alpn>)> = o.handler.iter().filter(|(_, a)| a.is_some()).collect();
         // the handler registered (last) for an ALPN
         let registered_for = |a: &Alpn| sc.reg.iter().rposition(|r| r == a);
@@ -401,6 +677,9 @@ fn oracle(sc: &Scenario, obs: &[DialObs], ex: &mut Exec) {
         if accepts.len() > 1 {
             ex.violation("C40:handled-twice", format!("dial {i}: {} handler invocations", accepts.len()));
         }
+        if o.handler.iter().filter(|(_, a)| a.is_none()).count() > 1 {
+            ex.violation("C40:handled-twice", format!("dial {i}: on_accepting invoked more than once"));
+        }
         let none_registered = offered.iter().all(|a| registered_for(a).is_none());
         if none_registered && !o.handler.is_empty() {
             ex.violation("C40:unregistered-handled", format!("dial {i}: no offered protocol is registered but a handler ran"));
@@ -409,7 +688,7 @@ fn oracle(sc: &Scenario, obs: &[DialObs], ex: &mut Exec) {
             ex.violation("C40:unregistered-connected", format!("dial {i}: no offered protocol is registered but the dial succeeded"));
         }
         // filter: the last verdict decides; retry needs a later accept on a validated attempt
-        if sc.filter.is_some() {
+        if sc.filter.is_some() && !o.filter.is_empty() {
             let last = o.filter.last();
             let admitted = matches!(last, Some((_, Verdict::Accept)));
             if !admitted && (!o.handler.is_empty() || matches!(o.res, DialRes::Ok(_))) {
@@ -417,7 +696,7 @@ fn oracle(sc: &Scenario, obs: &[DialObs], ex: &mut Exec) {
             }
             if let Some(p) = o.filter.iter().position(|(_, v)| *v == Verdict::Retry) {
                 let later_valid_accept = o.filter[p + 1..].iter().any(|(v, verdict)| *v && *verdict == Verdict::Accept);
-                if !accepts.is_empty() && !later_valid_accept {
+                if !o.handler.is_empty() && !later_valid_accept {
                     ex.violation("C40:retry-without-validated-accept", format!("dial {i}: handled after retry without an accepted validated attempt"));
                 }
             }
@@ -425,18 +704,98 @@ fn oracle(sc: &Scenario, obs: &[DialObs], ex: &mut Exec) {
         if matches!(o.res, DialRes::Ok(_)) && accepts.is_empty() {
             ex.violation("C40:connected-unhandled", format!("dial {i}: dial succeeded but no handler was invoked within 5 s"));
         }
-        if !matches!(o.res, DialRes::Ok(_)) && !accepts.is_empty() {
+        if !matches!(o.res, DialRes::Ok(_) | DialRes::RejAfter) && !accepts.is_empty() {
             ex.violation("C40:failed-but-handled", format!("dial {i}: dial failed ({:?}) but a handler accepted the connection", o.res));
+        }
+
+        // ---- composition with the hooks ----
+        let first_before_rej = dial.hooks.iter().position(|h| !h.before_accept);
+        let first_dafter_rej = dial.hooks.iter().position(|h| h.after_reject.is_some());
+        let first_aafter_rej = sc.ah.iter().position(|h| h.after_reject.is_some());
+        // (1a) an accept-side after-handshake rejection: the Connection never reaches a handler's accept
+        if first_aafter_rej.is_some() && !accepts.is_empty() {
+            ex.violation("C40:hook-rejected-but-handled", format!("dial {i}: an acceptor after_handshake hook rejects, yet ProtocolHandler::accept ran"));
+        }
+        // (1b) a before_connect rejection, a self dial, an empty name: no Incoming at all
+        let local_fail = first_before_rej.is_some() || dial.to_self || offered[0].is_empty();
+        if local_fail {
+            if !matches!(o.res, DialRes::RejBefore | DialRes::SelfConnect | DialRes::InvalidAlpn) {
+                ex.violation("C40:precondition-ignored", format!("dial {i}: result {:?}", o.res));
+            }
+            if !o.filter.is_empty() || !o.handler.is_empty() || !o.ahooks.is_empty() {
+                ex.violation("C40:incoming-after-local-failure", format!("dial {i}: filter {:?} handler {:?} acceptor hooks {:?}", o.filter, o.handler, o.ahooks));
+            }
+        }
+        if first_before_rej.is_some() && o.res != DialRes::RejBefore {
+            ex.violation("C40:before-reject-ignored", format!("dial {i}: {:?}", o.res));
+        }
+        // first reject wins on every chain
+        let chain = |calls: &Vec<String>, pfx: char, rejects: Vec<bool>, side: &str, ex: &mut Exec| {
+            let seq: Vec<usize> = calls.iter().filter_map(|c| c.strip_prefix(pfx).and_then(|x| x.parse().ok())).collect();
+            if seq.iter().enumerate().any(|(p, k)| p != *k) {
+                ex.violation("C40:hook-order", format!("dial {i} {side}: {calls:?}"));
+            }
+            if let Some(k) = rejects.iter().position(|r| *r) {
+                if seq.iter().any(|x| *x > k) {
+                    ex.violation("C40:hook-after-reject", format!("dial {i} {side}: {calls:?}"));
+                }
+            }
+        };
+        chain(&o.dhooks, 'b', dial.hooks.iter().map(|h| !h.before_accept).collect(), "dialer", ex);
+        chain(&o.dhooks, 'a', dial.hooks.iter().map(|h| h.after_reject.is_some()).collect(), "dialer", ex);
+        chain(&o.ahooks, 'a', sc.ah.iter().map(|h| h.after_reject.is_some()).collect(), "acceptor", ex);
+        // an after-handshake rejection is seen by the peer as a close with the hook's code
+        if !local_fail && !o.handler.is_empty() {
+            if let Some(k) = first_dafter_rej {
+                let code = dial.hooks[k].after_reject.unwrap();
+                if o.res != DialRes::RejAfter {
+                    ex.violation("C40:after-reject-ignored", format!("dial {i}: dialer hook {k} rejects but result is {:?}", o.res));
+                }
+                for c in &o.handler_close {
+                    match c {
+                        Some((c, r)) if *c == code && *r == reason('d', k) => {}
+                        other => ex.violation("C40:wrong-close-code", format!("dial {i}: handler's connection ended with {other:?}, expected code {code}")),
+                    }
+                }
+            } else if let Some(k) = first_aafter_rej {
+                let code = sc.ah[k].after_reject.unwrap();
+                match &o.res {
+                    DialRes::Closed(c, r) if *c == code && *r == reason('a', k) => {}
+                    other => ex.violation("C40:wrong-close-code", format!("dial {i}: acceptor hook {k} rejects with {code}, dialer saw {other:?}")),
+                }
+            }
+        }
+        if matches!(o.res, DialRes::RejAfter) && first_dafter_rej.is_none() {
+            ex.violation("C40:spurious-local-reject", format!("dial {i}"));
+        }
+        if matches!(o.res, DialRes::Closed(..)) && first_aafter_rej.is_none() {
+            ex.violation("C40:spurious-close", format!("dial {i}: {:?}", o.res));
         }
     }
 }
 
 const NAMES: [&[u8]; 7] = [b"a", b"ab", b"b", b"/iroh/x/1", b"/iroh/x/10", b"\x00\xff", b"zz"];
+const CODES: [u64; 4] = [0, 42, 300, (1 << 62) - 1];
 
 struct C40;
 
+fn hooks_tok(rng: &mut Rng, p_before: u64, p_after: u64) -> String {
+    let n = rng.usize_below(3);
+    if n == 0 {
+        return "-".into();
+    }
+    (0..n)
+        .map(|_| {
+            let b = if rng.chance(p_before, 100) { 'r' } else { 'a' };
+            let a = if rng.chance(p_after, 100) { format!("r{}", rng.pick(&CODES)) } else { "a".to_string() };
+            format!("{b}{a}")
+        })
+        .collect::<Vec<_>>()
+        .join(",")
+}
+
 impl C40 {
-    fn gen_case(&self, rng: &mut Rng, allow_ignore: bool) -> String {
+    fn gen_case(&self, rng: &mut Rng, allow_ignore: bool, with_hooks: bool) -> String {
         let nreg = rng.usize_below(5);
         let mut reg: Vec<&[u8]> = (0..nreg).map(|_| *rng.pick(&NAMES[..6])).collect();
         if rng.chance(1, 8) && !reg.is_empty() {
@@ -447,13 +806,22 @@ impl C40 {
         let mut dials = Vec::new();
         for _ in 0..ndials {
             let k = 1 + rng.usize_below(3);
-            let offered: Vec<String> = (0..k)
+            let mut offered: Vec<String> = (0..k)
                 .map(|_| {
                     let a: &[u8] = if !reg.is_empty() && rng.chance(3, 5) { *rng.pick(&reg) } else { *rng.pick(&NAMES) };
                     hex(a)
                 })
                 .collect();
-            dials.push(offered.join(","));
+            let mut pfx = "";
+            if with_hooks {
+                if rng.chance(1, 12) {
+                    offered[0] = "-".into();
+                }
+                if rng.chance(1, 12) {
+                    pfx = "@";
+                }
+            }
+            dials.push(format!("{pfx}{}", offered.join(",")));
         }
         let filter = if rng.chance(1, 3) {
             "-".to_string()
@@ -469,7 +837,13 @@ impl C40 {
                 .join(".")
         };
         let r = if reg.is_empty() { "-".to_string() } else { reg.iter().map(|a| hex(a)).collect::<Vec<_>>().join(",") };
-        format!("R={r} F={filter} D={}", dials.join("/"))
+        let base = format!("R={r} F={filter} D={}", dials.join("/"));
+        if with_hooks {
+            let dh: Vec<String> = (0..ndials).map(|_| hooks_tok(rng, 12, 20)).collect();
+            format!("{base} DH={} AH={}", dh.join("/"), hooks_tok(rng, 30, 25))
+        } else {
+            base
+        }
     }
 }
 
@@ -495,6 +869,20 @@ impl Prop for C40 {
             "R=61 F=ta D=62",
             // duplicate registration: the later handler wins
             "R=61,62,61 F=- D=61/62",
+            // ---- with hooks ----
+            // acceptor after-hook rejects: on_accepting is entered, accept never; dialer sees the code
+            "R=61,62 F=- D=61/62,61 DH=-/aa AH=aa,ar42,ar7",
+            // dialer before-hook rejects: nothing reaches the acceptor (no filter call either)
+            "R=61 F=aa.aa D=61/61 DH=aa,ra/aa AH=aa",
+            // dialer after-hook rejects (race on the accepting side)
+            "R=61 F=ta D=61 DH=aa,ar300 AH=aa",
+            "R=61 F=- D=61 DH=ar0 AH=ar4611686018427387903",
+            // preconditions behind the hooks: self dial, empty primary name
+            "R=61 F=aa.aa.aa D=@61/-,61/61 DH=aa/aa/ra AH=-",
+            // the filter refuses / nothing registered: no hook runs after the handshake
+            "R=61 F=rr.aa D=61/62 DH=ar1/ar2 AH=ar3",
+            // all gates open
+            "R=61,62 F=ta D=62,61 DH=aa,aa AH=aa,aa",
         ];
         for f in fixed.iter().take(n) {
             out.push(f.to_string());
@@ -502,7 +890,7 @@ impl Prop for C40 {
         let mut k = 0usize;
         while out.len() < n {
             // ignore verdicts cost a full (short) timeout: one case in six may contain them
-            let c = self.gen_case(rng, k % 6 == 0);
+            let c = self.gen_case(rng, k % 6 == 0, k % 2 == 1);
             k += 1;
             out.push(c);
         }
@@ -526,6 +914,9 @@ impl Prop for C40 {
                     ex.tags.push(format!("registered={}", sc.reg.len().min(5)));
                     ex.tags.push(format!("dials={}", sc.dials.len()));
                     ex.tags.push(if sc.filter.is_some() { "filter".into() } else { "no-filter".into() });
+                    if !sc.ah.is_empty() || sc.dials.iter().any(|d| !d.hooks.is_empty()) {
+                        ex.tags.push("with-hooks".into());
+                    }
                     for o in &obs {
                         ex.tags.push(
                             match &o.res {
@@ -533,6 +924,11 @@ impl Prop for C40 {
                                 DialRes::Refused => "dial-refused",
                                 DialRes::NoAlpn => "dial-noalpn",
                                 DialRes::TimedOut => "dial-ignored",
+                                DialRes::RejBefore => "dial-rej-before",
+                                DialRes::SelfConnect => "dial-self",
+                                DialRes::InvalidAlpn => "dial-invalid-alpn",
+                                DialRes::RejAfter => "dial-rej-after",
+                                DialRes::Closed(..) => "dial-closed-by-acceptor-hook",
                                 DialRes::Err(_) => "dial-err",
                             }
                             .into(),
@@ -540,9 +936,12 @@ impl Prop for C40 {
                         if o.filter.iter().any(|(_, v)| *v == Verdict::Retry) {
                             ex.tags.push("retried".into());
                         }
-                        if sc.dials.iter().any(|d| d.len() > 1) {
-                            ex.tags.push("multi-offer".into());
+                        if o.res == DialRes::RejAfter {
+                            ex.tags.push(if o.handler.iter().any(|(_, a)| a.is_some()) { "race-accept-ran" } else { "race-accept-skipped" }.into());
                         }
+                    }
+                    if sc.dials.iter().any(|d| d.offered.len() > 1) {
+                        ex.tags.push("multi-offer".into());
                     }
                     return ex;
                 }
